@@ -60,7 +60,7 @@ def run_seed(seed, checks, tier="quick"):
 
 
 # checks that should ALSO see a seed (besides the one of its property)
-ALSO = {"C10_m2": ["C13"], "C08_m1": ["C05"], "C08_m2": ["C03"], "C12_m2": ["C13"], "C13_m2": ["C12"], "C17_m2": ["C01"], "C14_m2": ["C15"],
+ALSO = {"C10_m2": ["C13"], "C08_m1": ["C05"], "C08_m2": ["C03"], "C12_m2": ["C13"], "C13_m2": ["C12"], "C17_m2": ["C02"], "C14_m2": ["C15"],
         "C04_m1": ["C05"], "C01_m2": ["C02"]}
 
 
